@@ -191,6 +191,9 @@ class Real:
             if k in ("CPUE", "CPUEP"):
                 want_id = ""
                 args += ["--id", ""]
+            if len(op) > 1 and op[-1] == "git-path":
+                import shutil as _sh
+                args += ["--git-path", _sh.which("git")]   # the same git, named explicitly
             res = r.mr(*args)
             doc = res.json()
             if res.code != 0 or doc is None:
@@ -1157,7 +1160,9 @@ def bfs(prop, tier, depth, wall_cap=None):
         agg["surroundings_cases"] = len(sur)
         # a checkpoint recorded with an empty id (`--id ""`): no position, the tracked part follows HEAD
         emp = [[["CPUE"]], [["W", "a/f.txt", "2"], ["CPUE"]], [["W", "b/m.txt", "1"], ["CPUEP"]], [["CPUEP"], ["W", "a/f.txt", "2"]],
-               [["W", "a/f.txt", "2"], ["ADD"], ["COMMIT"], ["CPUE"], ["W", "b/m.txt", "1"]], [["W", "b/m.txt", "1"], ["CPUEP"], ["ADD"], ["COMMIT"]]]
+               [["W", "a/f.txt", "2"], ["ADD"], ["COMMIT"], ["CPUE"], ["W", "b/m.txt", "1"]], [["W", "b/m.txt", "1"], ["CPUEP"], ["ADD"], ["COMMIT"]],
+               # the same git binary named explicitly with --git-path
+               [["W", "b/m.txt", "1"], ["CPUP", "git-path"]], [["CPU", "git-path"], ["W", "a/f.txt", "2"], ["CPUP", "git-path"], ["W", "a/f.txt", "1"]]]
         for r in common.pmap(state_task, [(prop, tier, ops) for ops in emp]):
             if "engine_error" in r:
                 raise common.EngineError(r["engine_error"])
